@@ -56,9 +56,9 @@ impl ShardContext {
                 .expect("Failed to spawn WAL thread"),
         );
 
-        // Step 2: Load existing segment IDs
+        // Step 2: Load existing (published) segment IDs
         let segment_id_loader = SegmentIdLoader::new(base_dir.clone());
-        let segment_ids = Arc::new(RwLock::new(segment_id_loader.load()));
+        let segment_ids = Arc::new(RwLock::new(segment_id_loader.load_published()));
         let segment_id = SegmentIdLoader::next_id(&segment_ids);
         let existing: Vec<String> = segment_ids.read().unwrap().clone();
         let allocator = RangeAllocator::from_existing_ids(existing.iter().map(|s| s.as_str()));
